@@ -7,7 +7,8 @@
     [witness_ok sy w]: the witness names and orders states and inputs as the
     system does and gives every one of them a value of its type; the valuation of
     step 0 is initial (the state values agree with the init expressions, read
-    under that same valuation); and there is a way to choose, at every later
+    under that same valuation; arrays on their index range: [is_initial_r] of
+    Spec/ReachSpec.v, a witness array has no values elsewhere); and there is a way to choose, at every later
     step, the values of the states WITHOUT a next function (the witness format has
     no place for them) such that the resulting run of [Spec/System.v] satisfies
     all constraints at every step and, at its last step, the bad states that hold
@@ -18,7 +19,7 @@
     Executable definitions in this file, except [witness_ok] itself. *)
 
 From Coq Require Import List Bool.
-From Patronus Require Export ReachBmc.
+From Patronus Require Export ReachSpec.
 Import ListNotations.
 Open Scope N_scope.
 
@@ -88,7 +89,7 @@ Definition free_matches (sy : sys) (vs : list (option val)) (f : env) : Prop :=
 
 Definition witness_ok (sy : sys) (w : witness) : Prop :=
   witness_shape_ok sy w = true /\
-  is_initial sy (witness_env0 sy w) /\
+  is_initial_r sy (witness_env0 sy w) /\
   exists frees : list env,
     Forall2 (free_matches sy) (tl (w_inputs w)) frees /\
     Forall env_wf frees /\
